@@ -345,7 +345,8 @@ def check_r065(fx, rep):
                         ok = False
         # the arm returns Some(rebuilt) unconditionally
         tail = T.term(arm["body"], T.Env())
-        returns_some = "Some" in T.short(tail)[:400] or any(c.get("k") == "Call" and (F.path_def(c["f"]) or "").endswith("::Some") for c, _ in F.walk(arm["body"]))
+        leaves = [F.strip(x) for x in T.result_leaves(arm["body"])]
+        returns_some = bool(leaves) and all(x.get("k") == "Call" and (F.path_def(x["f"]) or "").endswith("::Some") for x in leaves)
         rep.oblige(ok and returns_some, "R06.5", f"slot-arm:{V}", F.loc(arm["span"]), f"the `{V}` arm of the storage-slot pass does not rebuild the node with a StorageSlot key on every path", sample={"rule": "R06.5", "arm": V, "key": "existing StorageSlot or fresh wrapper"})
 
 
@@ -509,6 +510,12 @@ def check(fx, rep, tier):
     from .c05 import check_fresh_run
 
     check_fresh_run(fx, rep, "R06.4")
+    # a literal key survives on the stack only if a value of up to `limit` nodes is kept (the cull comparison is `>`): with the
+    # smallest limit every pushed literal would otherwise become an opaque value and its slot would be lost (shared with C18 R18.4)
+    from .c18 import check_r184
+    from ..core import Retag
+
+    check_r184(fx, Retag(rep, "R06.2"))
     return rep.finish(
         "Must-flow / append-only audit of the chain executed access -> generation -> stored state -> exported StorageWrite -> lifted value -> registered value -> StorageSlot key -> layout row, "
         "with the row index carried as a 256-bit type and no dropping adaptor, conditional or narrowing on any link.",
